@@ -56,6 +56,31 @@ pub enum Shapes {
     Struct { a: i32, b: Option<String> },
 }
 
+/// variants whose payload serialises to null / an empty or nested container
+#[derive(Deserialize, Serialize, Debug, PartialEq, Clone)]
+pub enum Payloads {
+    Maybe(Option<i32>),
+    Nothing(()),
+    Tagged(Unit),
+    Seq(Vec<u8>),
+    Map(BTreeMap<String, u8>),
+    Inner(Fieldless),
+    Deep(Box<Shapes>),
+    Empty(),
+    EmptyS {},
+    Opt { o: Option<Option<u8>>, u: () },
+}
+
+#[derive(Deserialize, Serialize, Debug, PartialEq, Clone)]
+pub struct Wrappers {
+    u: Unit,
+    n: Newtype,
+    p: Pair,
+    o: Option<Unit>,
+    e: Vec<Payloads>,
+    k: BTreeMap<Fieldless, Option<Newtype>>,
+}
+
 #[derive(Deserialize, Serialize, Debug, PartialEq, Clone)]
 pub struct Plain {
     a: i32,
@@ -200,6 +225,123 @@ fn judge<T: PartialEq + Debug>(ctx: &mut Ctx, name: &str, api: &str, s: &[u8], a
     }
 }
 
+/// Byte-buffer targets read a JSON string as raw bytes: escapes are decoded (surrogates must pair),
+/// raw control characters are rejected, every other byte - valid UTF-8 or not - is taken as it is.
+/// `lit` is one complete string literal including its quotes.
+pub fn bytes_model(lit: &[u8]) -> Option<Vec<u8>> {
+    let b = &lit[1..lit.len() - 1];
+    let mut out = vec![];
+    let mut i = 0;
+    let hex4 = |i: usize| -> Option<u32> {
+        if i + 4 > b.len() {
+            return None;
+        }
+        let mut v = 0u32;
+        for c in &b[i..i + 4] {
+            v = v * 16 + (*c as char).to_digit(16)?;
+        }
+        Some(v)
+    };
+    while i < b.len() {
+        match b[i] {
+            b'\\' => {
+                let e = *b.get(i + 1)?;
+                i += 2;
+                match e {
+                    b'"' => out.push(b'"'),
+                    b'\\' => out.push(b'\\'),
+                    b'/' => out.push(b'/'),
+                    b'b' => out.push(8),
+                    b'f' => out.push(12),
+                    b'n' => out.push(b'\n'),
+                    b'r' => out.push(b'\r'),
+                    b't' => out.push(b'\t'),
+                    b'u' => {
+                        let mut cp = hex4(i)?;
+                        i += 4;
+                        if (0xDC00..0xE000).contains(&cp) {
+                            return None;
+                        }
+                        if (0xD800..0xDC00).contains(&cp) {
+                            if b.get(i) != Some(&b'\\') || b.get(i + 1) != Some(&b'u') {
+                                return None;
+                            }
+                            let lo = hex4(i + 2)?;
+                            if !(0xDC00..0xE000).contains(&lo) {
+                                return None;
+                            }
+                            i += 6;
+                            cp = 0x10000 + ((cp - 0xD800) << 10) + (lo - 0xDC00);
+                        }
+                        let mut buf = [0u8; 4];
+                        out.extend_from_slice(char::from_u32(cp)?.encode_utf8(&mut buf).as_bytes());
+                    }
+                    _ => return None,
+                }
+            }
+            c if c < 0x20 => return None,
+            b'"' => return None,
+            c => {
+                out.push(c);
+                i += 1;
+            }
+        }
+    }
+    Some(out)
+}
+
+/// is `t` exactly one string literal (opening quote, no unescaped quote inside, closing quote last)?
+fn single_literal(t: &[u8]) -> bool {
+    if t.len() < 2 || t[0] != b'"' || t[t.len() - 1] != b'"' {
+        return false;
+    }
+    let mut i = 1;
+    while i < t.len() - 1 {
+        match t[i] {
+            b'\\' => i += 2,
+            b'"' => return false,
+            _ => i += 1,
+        }
+    }
+    i == t.len() - 1
+}
+
+fn run_bytebuf(ctx: &mut Ctx, s: &[u8]) {
+    run_t::<serde_bytes::ByteBuf>(ctx, "ByteBuf", s);
+    let ws = |c: &u8| matches!(c, b' ' | b'\n' | b'\t' | b'\r');
+    let a = s.iter().position(|c| !ws(c)).unwrap_or(s.len());
+    let z = s.iter().rposition(|c| !ws(c)).map(|i| i + 1).unwrap_or(a);
+    let t = &s[a..z.max(a)];
+    if !single_literal(t) {
+        return;
+    }
+    ctx.ops(1);
+    ctx.class(if std::str::from_utf8(t).is_ok() { "bytes-literal:utf8" } else { "bytes-literal:not-utf8" });
+    let want = bytes_model(t);
+    let got = sonic_rs::from_slice::<serde_bytes::ByteBuf>(s).map(|b| b.into_vec());
+    match (&want, &got) {
+        (Some(w), Ok(g)) if w == g => {}
+        (None, Err(_)) => {}
+        _ => ctx.fail("bytes-literal-differs:ByteBuf", format!("from_slice::<ByteBuf>({:?}): sonic {:?}, byte-string model {:?}", crate::core::truncate(&String::from_utf8_lossy(s), 120), got.as_ref().map_err(|e| e.to_string()), want)),
+    }
+}
+
+/// a string literal mixing plain text, escapes and bytes that are not UTF-8
+fn bytes_literal(r: &mut Rng) -> Vec<u8> {
+    let mut t = vec![b'"'];
+    for _ in 0..r.range(0, 12) {
+        match r.below(10) {
+            0 | 1 => t.extend_from_slice(r.pick(&["\\n", "\\\"", "\\\\", "\\u0041", "\\u00e9", "\\ud83d\\ude00", "\\/", "\\t"]).as_bytes()),
+            2 | 3 => t.push(0x80 + r.below(0x80) as u8),
+            4 => t.extend_from_slice("é日😀".as_bytes()),
+            5 => t.extend_from_slice(r.pick(&["\\ud800", "\\udc00", "\\x", "\\u12", "\x01"]).as_bytes()),
+            _ => t.extend_from_slice(b"ab"),
+        }
+    }
+    t.push(b'"');
+    t
+}
+
 pub struct TypeCase {
     pub name: &'static str,
     pub run: for<'a> fn(&mut Ctx, &'a [u8]),
@@ -266,6 +408,22 @@ fn shapes(r: &mut Rng) -> Shapes {
         _ => Shapes::Struct { a: r.next() as i32, b: if r.chance(1, 2) { Some(rs(r)) } else { None } },
     }
 }
+fn payloads(r: &mut Rng) -> Payloads {
+    match r.below(12) {
+        0 => Payloads::Maybe(None),
+        1 => Payloads::Maybe(Some(r.next() as i32)),
+        2 => Payloads::Nothing(()),
+        3 => Payloads::Tagged(Unit),
+        4 => Payloads::Seq((0..r.range(0, 3)).map(|_| r.next() as u8).collect()),
+        5 => Payloads::Map((0..r.range(0, 3)).map(|_| (rs(r), r.next() as u8)).collect()),
+        6 => Payloads::Inner(fieldless(r)),
+        7 => Payloads::Deep(Box::new(shapes(r))),
+        8 => Payloads::Empty(),
+        9 => Payloads::EmptyS {},
+        10 => Payloads::Opt { o: None, u: () },
+        _ => Payloads::Opt { o: Some(if r.chance(1, 2) { Some(r.next() as u8) } else { None }), u: () },
+    }
+}
 fn fieldless(r: &mut Rng) -> Fieldless {
     match r.below(3) {
         0 => Fieldless::A,
@@ -325,6 +483,20 @@ pub fn types() -> Vec<TypeCase> {
         tc!("BTreeMap<F64key,u8>", BTreeMap<String, F64>, |r| js(&(0..r.range(0, 4)).map(|_| (rs(r), crate::gen::dynval::rand_f64(r))).filter(|(_, f)| f.is_finite()).collect::<BTreeMap<_, _>>())),
         tc!("Fieldless", Fieldless, |r| js(&fieldless(r))),
         tc!("Shapes", Shapes, |r| js(&shapes(r))),
+        tc!("Payloads", Payloads, |r| js(&payloads(r))),
+        tc!("Vec<Payloads>", Vec<Payloads>, |r| js(&(0..r.range(0, 4)).map(|_| payloads(r)).collect::<Vec<_>>())),
+        tc!("Wrappers", Wrappers, |r| {
+            let w = Wrappers {
+                u: Unit,
+                n: Newtype(r.next() as i32),
+                p: Pair(r.next() as i32, rs(r)),
+                o: if r.chance(1, 2) { Some(Unit) } else { None },
+                e: (0..r.range(0, 3)).map(|_| payloads(r)).collect(),
+                k: (0..r.range(0, 3)).map(|_| (fieldless(r), if r.chance(1, 2) { Some(Newtype(r.next() as i32)) } else { None })).collect(),
+            };
+            js(&w)
+        }),
+        tc!("Option<()>", Option<()>, |r| (*r.pick(&["null", "[]", "0"])).to_string()),
         tc!("Plain", Plain, |r| js(&plain(r))),
         tc!("Defaults", Defaults, |r| {
             let d = Defaults { a: r.next() as i32, b: if r.chance(1, 2) { Some(rs(r)) } else { None }, c: vec![r.next() as i64] };
@@ -357,7 +529,7 @@ pub fn types() -> Vec<TypeCase> {
         tc!("Flat", Flat, |r| (*r.pick(&["{\"id\":1,\"a\":2,\"b\":-3}", "{\"a\":2,\"id\":7}", "{\"id\":1,\"a\":\"x\"}", "{\"id\":1}", "{\"a\":1}", "{\"id\":1,\"a\":1,\"a\":2}", "{\"id\":4294967296}"])).to_string()),
         tc!("Internally", Internally, |r| (*r.pick(&["{\"t\":\"A\",\"x\":1}", "{\"x\":1,\"t\":\"A\"}", "{\"t\":\"B\",\"y\":\"s\"}", "{\"t\":\"C\"}", "{\"x\":1}", "{\"t\":\"A\",\"x\":\"1\"}", "[\"A\",1]"])).to_string()),
         tc!("Adjacent", Adjacent, |r| (*r.pick(&["{\"t\":\"A\",\"c\":1}", "{\"c\":1,\"t\":\"A\"}", "{\"t\":\"B\",\"c\":[\"s\",true]}", "{\"t\":\"B\",\"c\":[\"s\"]}", "{\"t\":\"A\"}", "[\"A\",1]"])).to_string()),
-        tc!("ByteBuf", serde_bytes::ByteBuf, |r| if r.chance(1, 2) { js(&(0..r.range(0, 6)).map(|_| r.next() as u8).collect::<Vec<u8>>()) } else { js(&rs(r)) }),
+        TypeCase { name: "ByteBuf", run: |ctx, s| run_bytebuf(ctx, s), gen: |r| if r.chance(1, 2) { js(&(0..r.range(0, 6)).map(|_| r.next() as u8).collect::<Vec<u8>>()) } else { js(&rs(r)) } },
         tc!("Box<[i8]>", Box<[i8]>, |r| js(&(0..r.range(0, 6)).map(|_| r.next() as i8).collect::<Vec<i8>>())),
         tc!("serde_json::Value", serde_json::Value, |r| String::from_utf8_lossy(&doc::gen_any(r)).into_owned()),
     ]
@@ -406,6 +578,7 @@ impl Check for C04 {
         ctx.class(&format!("type:{}", t.name));
         for _ in 0..c.p(2) {
             let text: Vec<u8> = match r.below(8) {
+                0 if t.name == "ByteBuf" => bytes_literal(&mut r),
                 0 | 1 | 2 => (t.gen)(&mut r).into_bytes(),
                 3 | 4 => {
                     // near-matching: a mutation of a matching text
@@ -428,6 +601,6 @@ impl Check for C04 {
         ctx.sample(t.name);
     }
     fn required_classes(&self, _b: &str, _t: Tier) -> Vec<&'static str> {
-        vec!["outcome:both-ok", "outcome:both-err", "type:u128", "type:Untagged", "type:Flat", "type:Borrowing", "type:Shapes", "type:ByteBuf"]
+        vec!["outcome:both-ok", "outcome:both-err", "type:u128", "type:Untagged", "type:Flat", "type:Borrowing", "type:Shapes", "type:ByteBuf", "bytes-literal:not-utf8", "bytes-literal:utf8"]
     }
 }
